@@ -13,11 +13,16 @@ PROPS = {
         rule="generated 16-bit sequences (noise, drifts, half-quantum boundary steps, pulses, extremes) x random "
              "splits into calls x parameter sets (Abaco 16/4, ROACH 14/2, any 1<=drop<fb<=16; bias off / +-0.38 phi0 / "
              "any |bias|<=pi; reset 1..20000; inversion). Non-trivial = unwrapping enabled and at least one sample "
-             "left the home offset (a wrap was applied); distinct by input line.",
-        nontrivial=["wrapped"],
+             "left the home offset (a wrap was applied); distinct by input line. In addition `grp` cases build a REAL Abaco channel "
+             "group (NewAbacoGroup with generated AbacoUnwrapOptions: RescaleRaw/Unwrap/Bias/ResetAfter/PulseSign/InvertChan, groups "
+             "starting at channel 0,1,2,4,8,12,100, InvertChan listing numbers inside / outside the group / small indices) and run the real "
+             "demuxData on real 16- and 32-bit packets over 1..4 calls; every channel must receive what its own configured unwrapper "
+             "(inverted iff its channel NUMBER is listed) yields.",
+        nontrivial=["wrapped", "group"],
         jobs=seeds(1, 8),
         trusted_base=["Go uint16/int16 conversion semantics as transcribed in Model/C12.lean (toInt16, mod 65536)"],
-        assumptions=["the PhaseUnwrapper is only driven through NewPhaseUnwrapper/UnwrapInPlace",
+        assumptions=["the PhaseUnwrapper is only driven through NewPhaseUnwrapper/UnwrapInPlace (Abaco: NewAbacoGroup/demuxData, exercised; "
+                     "ROACH: samplePacket wiring needs a UDP device and is not exercised)",
                      "theorems assume |bias| <= half a quantum (true for every caller after the ROACH fix)"],
     ),
     "C14": dict(
